@@ -80,34 +80,56 @@ static __always_inline int token_bucket_check(struct token_bucket *tb, __u32 pkt
 	/* Calculate elapsed time since last update */
 	elapsed_ns = now - tb->last_update;
 
-	/* Calculate new tokens to add (rate_bps / 8 = bytes per second) */
-	/* tokens = elapsed_ns * (rate_bps / 8) / 1e9 */
-	/* Simplified: tokens = elapsed_ns * rate_bps / 8e9 */
-	new_tokens = (elapsed_ns * (tb->rate_bps / 8)) / 1000000000ULL;
+	/* The low 32 bits of 'tokens' hold the whole tokens (bytes, never more
+	 * than burst_bytes, which is 32 bits wide); the high 32 bits carry the
+	 * fraction of a byte that had accrued at last_update, in units of
+	 * 2 bit-nanoseconds (1/4e9 byte). Carrying the fraction makes the
+	 * refill exact: rounding the consumed time up (or the tokens down) on
+	 * every packet, and the rate down to whole bytes per second,
+	 * under-credited a busy subscriber without bound over time. The control
+	 * plane writes tokens = burst_bytes, i.e. a zero fraction. */
+	__u64 whole = tb->tokens & 0xffffffffULL;
+	__u64 frac = tb->tokens >> 32;
+
+	/* largest multiplier of rate_bps that cannot overflow 64 bits (the
+	 * barrier keeps the compiler from turning the comparisons below into a
+	 * 128-bit multiplication, which the BPF target does not have) */
+	__u64 lim = (~0ULL - 8000000000ULL) / tb->rate_bps;
+	asm volatile("" : "+r"(lim));
+
+	if (elapsed_ns <= lim) {
+		/* bit-nanoseconds accrued, including the carried fraction */
+		__u64 acc = elapsed_ns * tb->rate_bps + frac * 2;
+
+		new_tokens = acc / 8000000000ULL;
+		frac = (acc % 8000000000ULL) / 2;
+	} else if (elapsed_ns / 1000 <= lim) {
+		/* long idle: microsecond resolution is enough (rounds down) */
+		new_tokens = ((elapsed_ns / 1000) * tb->rate_bps) / 8000000ULL;
+		frac = 0;
+	} else {
+		new_tokens = tb->burst_bytes;
+		frac = 0;
+	}
 
 	/* Add tokens, capped at burst size */
-	tb->tokens += new_tokens;
-	if (tb->tokens >= tb->burst_bytes) {
-		/* Bucket full: nothing accrues beyond the burst, restart the clock */
-		tb->tokens = tb->burst_bytes;
-		tb->last_update = now;
-	} else if (new_tokens > 0) {
-		/* Consume only the time these whole tokens took to accrue (rounded
-		 * up, so the bucket never over-credits). Setting the timestamp to
-		 * 'now' discarded the fraction of a token on every packet: a
-		 * subscriber whose packets arrive faster than one byte accrues was
-		 * never credited again. */
-		__u64 bytes_per_sec = tb->rate_bps / 8;
-		tb->last_update += (new_tokens * 1000000000ULL + bytes_per_sec - 1) / bytes_per_sec;
+	if (new_tokens >= tb->burst_bytes || whole + new_tokens >= tb->burst_bytes) {
+		/* Bucket full: nothing accrues beyond the burst */
+		whole = tb->burst_bytes;
+		frac = 0;
+	} else {
+		whole += new_tokens;
 	}
+	tb->last_update = now;
 
 	/* Check if we have enough tokens for this packet */
 	tokens_needed = pkt_len;
-	if (tb->tokens >= tokens_needed) {
-		tb->tokens -= tokens_needed;
+	if (whole >= tokens_needed) {
+		tb->tokens = (frac << 32) | (whole - tokens_needed);
 		return 1; /* Allow */
 	}
 
+	tb->tokens = (frac << 32) | whole;
 	return 0; /* Drop */
 }
 
